@@ -528,3 +528,65 @@ var ExactFloatPrinter = Printer{
 		return "", false
 	},
 }
+
+// ---- text-unmarshalable leaves of SCALAR kind (an slog.Level-like integer, a string enum) ----
+
+// NSeverity is an integer with names; 0 is unset and has the empty text.
+type NSeverity int
+
+var severityNames = []string{"", "DEBUG", "INFO", "WARN", "ERROR"}
+
+func (l *NSeverity) UnmarshalText(b []byte) error {
+	for i, n := range severityNames {
+		if i > 0 && n == string(b) {
+			*l = NSeverity(i)
+			return nil
+		}
+	}
+	return fmt.Errorf("unknown severity %q", b)
+}
+
+func (l NSeverity) MarshalText() ([]byte, error) {
+	if l >= 0 && int(l) < len(severityNames) {
+		return []byte(severityNames[l]), nil
+	}
+	return []byte(fmt.Sprintf("NSeverity(%d)", int(l))), nil
+}
+
+// NMode is a string enum: only "fast" and "slow" can be given as text.
+type NMode string
+
+func (m *NMode) UnmarshalText(b []byte) error {
+	if s := string(b); s == "fast" || s == "slow" {
+		*m = NMode(s)
+		return nil
+	}
+	return fmt.Errorf("unknown mode %q", b)
+}
+
+func (m NMode) MarshalText() ([]byte, error) { return []byte(m), nil }
+
+var tSeverity, tMode = reflect.TypeOf(NSeverity(0)), reflect.TypeOf(NMode(""))
+
+// EnumTypes returns the two scalar-kind TextUnmarshaler types.
+func EnumTypes() []reflect.Type { return []reflect.Type{tSeverity, tMode} }
+
+// EnumPrinter: ValuePrinter plus the enum types as opaque text leaves (their MarshalText).
+var EnumPrinter = Printer{
+	LeafTy: func(t reflect.Type) (string, bool) {
+		if t == tSeverity || t == tMode {
+			return "(TTextU " + coqfmt.Str(t.String()) + " true)", true
+		}
+		return ValuePrinter.LeafTy(t)
+	},
+	LeafVal: func(v reflect.Value) (string, bool) {
+		switch v.Type() {
+		case tSeverity:
+			b, _ := NSeverity(v.Int()).MarshalText()
+			return "(VText " + coqfmt.Str(string(b)) + ")", true
+		case tMode:
+			return "(VText " + coqfmt.Str(v.String()) + ")", true
+		}
+		return ValuePrinter.LeafVal(v)
+	},
+}
